@@ -8,12 +8,15 @@ PROP = dict(
     scope=comp_scope("syl"),
     level="proof",
     exhaustive=True,
-    rule="exhaustive: every 16-bit code (accessors, spelling, removers, pop, C conversion), update on codes x 42 symbols "
-         "(all codes in the thorough tier), every builder transition from every reachable builder state, the starts_with "
-         "shift class of every code; plus seeded random strings and pairs. distinct = distinct record text",
+    rule="exhaustive: every one of the 65536 16-bit values (accepted by try_from or not; if accepted: accessors, spelling, "
+         "removers, pop, C conversion, and the oracle 'an accepted value converts back from its components and its "
+         "spelling'), update on every syllable value x 42 symbols, every builder transition from every reachable builder "
+         "state, the starts_with shift class of every syllable value; plus seeded random strings and pairs. "
+         "distinct = distinct record text",
     trusted_base=["kernel evaluation (`decide +kernel`) of finite table facts over the generated tables; no native_decide"],
     assumptions=["a Bopomofo symbol is modelled by its enum discriminant, a syllable by its u16 code",
-                 "known finding F18: strings containing the first-tone mark are outside spell_parse (refutation proved)"],
+                 "known finding F18: strings containing the first-tone mark are outside spell_parse, codes with the tone "
+                 "value 5 outside accepted_roundtrip (both refutations proved)"],
 )
 
 MANIFEST = dict(
@@ -21,8 +24,14 @@ MANIFEST = dict(
          "from src/zhuyin/{syllable,bopomofo}.rs on every run: non-zero unique code, component / code / spelling round trips, "
          "unique spelling, the parser accepts exactly strictly-kind-increasing symbol strings (induction over all strings), "
          "update/remove act on one component, starts_with <-> agreement up to the last present component (all pairs, by "
-         "arithmetic, no pair enumeration). Tie: translator + exhaustive correspondence over all 65536 codes and every "
-         "builder transition. Known finding F18 (first-tone mark) is proved as a refutation and excluded by hypothesis.",
+         "arithmetic, no pair enumeration). All 65536 values: try_from accepts EXACTLY the codes of the tuples with initial "
+         "<= 21, medial <= 3, rime <= 13, tone <= 5 (decode_total_iff; fixed finding F47: it accepted every non-zero value), "
+         "every accepted code converts back from its components and from its spelling with no further premise "
+         "(accepted_roundtrip), every value the parser / update produce is accepted (parse_valid, update_valid), the C "
+         "function answers -1 for a rejected value and writes a text that parses back otherwise. Tie: translator (incl. "
+         "the bounds of try_from) + exhaustive correspondence over all 65536 values and every builder transition; the "
+         "oracle evaluates 'accepted => round trips' on all 65536 values. Known finding F18 (first-tone mark, tone value 5) "
+         "is proved as a refutation (spell_parse_full_refuted, accepted_roundtrip_full_refuted) and excluded by hypothesis.",
     note="Trusted: Lean kernel (axioms propext, Classical.choice, Quot.sound only), tools/extract.py, the harness and the "
          "compiled model driver. A symbol is modelled by its discriminant and a syllable by its u16 code.",
     technique="Lean 4 proof (induction + kernel-evaluated finite tables + omega) over a translator-regenerated model; exhaustive model/implementation correspondence",
